@@ -3,6 +3,7 @@ import Proofs.BlameColour
 import Proofs.BlameParse
 import Proofs.BlameRender
 import Proofs.BlameFormat
+import Proofs.BlameFlow
 /-!
 C17 — git blame output keeps code and attribution; colours follow commits.
 
@@ -485,5 +486,249 @@ theorem code_and_number_intact (cfg : StreamCfg) (s s' : CState) (git : Bool) (o
 theorem stream_one_row_per_line (cfg : StreamCfg) (lines : List (Str × Bool)) (outs : List Out)
     (h : stream cfg {} lines = .ok outs) : outs.length = lines.length :=
   stream_length cfg {} lines outs h
+
+/-! ## The data flow of `is_repeat` and streams with arbitrary line numbers
+
+`handle_blame_line` computes one local, `is_repeat`, and hands it to three consumers: the blanking of the
+metadata column, `format_blame_line_number()` and — through `blame_metadata_style()` — `get_color()`. For the
+first two it is a *display* flag ("this line continues the block above"); for `get_color()` `false` means
+"the key differs from the previous key": with an equal key the arm `(Some(c), Some(c'), false)` finds the two
+colours equal, takes that for a collision with the line above and recolours the key for the rest of the stream.
+So the definition of `is_repeat`, and which expression reaches which consumer, is part of what C17 states.
+
+`tools/extractors/blameflow.py` translates that data flow on every run into `Generated.BlameFlow` (expressions
+over the previous key, the key, `blame.line_number`, author, commit and the fields of `StateMachine` the
+handler keeps between lines); `DeltaModel/BlameFlow.lean` (`stepF`, `runF`, `streamStepF`, `streamF`)
+interprets the table on blame lines *with their numbers* and is what `drv_blame` executes for `blame.stream`.
+The theorems below are about that generated table, for every sequence of line numbers: consecutive, several
+`-L` ranges (forward gaps), second listings and `--reverse` (backward jumps), repeated numbers. -/
+
+section Flow
+open BlameFlow
+
+set_option linter.unusedSimpArgs false in
+/-- What the property needs of the generated table, for every state, key, line number, author, commit and
+register content: the flag that reaches `get_color` *is* "same key as the previous blame line"; the metadata
+and the line number are blanked *only* for the key of the previous blame line; after the line the state is
+`State::Blame(key)`; no `usize` panic point in the flag / register arithmetic. -/
+theorem repeat_flow_ok : FlowOk := by
+  refine flowOk_of_table ?_ ?_ ?_ ?_ ?_
+  · intro e b h
+    simp [Generated.BlameFlow.styleFlag, evalB, evalO, evalS, evalN, cmpNat, Env.keyEq] at h ⊢
+    first | exact h.symm | exact h | omega
+  · intro e h
+    simp [Generated.BlameFlow.blankFlag, evalB, evalO, evalS, evalN, cmpNat, Env.keyEq] at h ⊢
+    first | exact h | exact h.1 | exact h.2 | omega
+  · intro e h
+    simp [Generated.BlameFlow.numberFlag, evalB, evalO, evalS, evalN, cmpNat, Env.keyEq] at h ⊢
+    first | exact h | exact h.1 | exact h.2 | omega
+  · intro e h
+    simp [Generated.BlameFlow.stateGuard, evalB, evalO, evalS, evalN, cmpNat, Env.keyEq] at h ⊢
+  · intro e hw
+    rcases e with ⟨pk, k, n, a, c, regs, sregs, o⟩
+    simp [Env.wf, Generated.BlameFlow.numRegs, Generated.BlameFlow.strRegs] at hw
+    obtain ⟨h1, h2⟩ := hw
+    subst h1; subst h2
+    rfl
+
+example : (flags ⟨some ['k'], ['k'], 80, [], [], Generated.BlameFlow.numRegs.map (·.2),
+      Generated.BlameFlow.strRegs.map (fun _ => none), fun _ => false⟩).map (fun f => (f.style, f.update)) =
+    some (true, true) := by decide
+
+/-- The generated table evaluated on a stream with a forward gap (`-L 10,11 -L 80,81`), a backward jump and a
+repeated number inside one attribution: one colour for the attribution throughout, and the table is
+executable (no condition the translator could not read). -/
+theorem line_number_gap_keeps_colour :
+    coloursOf [['1'], ['2'], ['3']]
+      [ln ['k'] 10, ln ['k'] 11, ln ['k'] 80, ln ['k'] 81, ln ['j'] 82, ln ['k'] 30, ln ['k'] 30, ln ['k'] 7] =
+      some [some ['1'], some ['1'], some ['1'], some ['1'], some ['2'], some ['1'], some ['1'], some ['1']] ∧
+    executable = true := by
+  decide
+
+/-- Every blame stream (no line coloured by git), whatever its line numbers, is painted: one paint per line,
+each with a palette colour; no `delta_unreachable`, no index failure, no arithmetic panic. -/
+theorem run_total_any_line_numbers (pal : List Colour) (hpal : pal ≠ []) (opq : Nat → Bool)
+    (lines : List LineIn) (hplain : ∀ l ∈ lines, l.git = false) :
+    ∃ s ps, runF pal opq {} lines = .ok (s, ps) ∧ ps.length = lines.length ∧
+      ∀ p ∈ ps, ∃ c, p.colour = some c := by
+  obtain ⟨c', ps, hr, hl, hc⟩ := run_total pal hpal (lines.map (·.key))
+  rw [← keysOf_plain lines hplain] at hr
+  obtain ⟨s', fps, hrf, _, _, hcol, _⟩ := (runF_sim repeat_flow_ok pal opq lines {} init_wf).1 c' ps hr
+  refine ⟨s', fps, hrf, ?_, ?_⟩
+  · have := congrArg List.length hcol
+    simp at this
+    rw [this, hl]; simp
+  · intro p hp
+    have hm : p.colour ∈ fps.map (·.colour) := List.mem_map_of_mem hp
+    rw [hcol] at hm
+    obtain ⟨q, hq, hqe⟩ := List.mem_map.mp hm
+    obtain ⟨c, hc'⟩ := hc q hq
+    exact ⟨c, by rw [← hqe, hc']⟩
+
+example : ∀ l ∈ [ln ['k'] 10, ln ['k'] 80, ln ['j'] 3], l.git = false := by decide
+
+/-- Consecutive lines with the same attribution share one colour — whatever their line numbers (adjacent,
+a gap, a backward jump, the same number again). -/
+theorem same_key_same_colour_any_line_numbers (pal : List Colour) (hpal : pal ≠ []) (opq : Nat → Bool)
+    (pre post : List LineIn) (a b : LineIn) (hk : a.key = b.key)
+    (hplain : ∀ l ∈ pre ++ a :: b :: post, l.git = false) (s : FState) (ps : List FPaint)
+    (h : runF pal opq {} (pre ++ a :: b :: post) = .ok (s, ps)) :
+    ∃ pa pb, ps[pre.length]? = some pa ∧ ps[pre.length + 1]? = some pb ∧ pa.colour = pb.colour := by
+  obtain ⟨bps, hr, hcol, _⟩ := runF_ok_run repeat_flow_ok pal opq _ s ps h
+  rw [keysOf_plain _ hplain] at hr
+  simp only [List.map_append, List.map_cons, hk] at hr
+  obtain ⟨x, y, hx, hy, hxy, _⟩ :=
+    same_key_same_colour pal hpal (pre.map (·.key)) (post.map (·.key)) b.key _ bps hr
+  simp only [List.length_map] at hx hy
+  obtain ⟨pa, hpa, hca⟩ := getElem?_of_map_eq _ _ ps bps hcol _ x hx
+  obtain ⟨pb, hpb, hcb⟩ := getElem?_of_map_eq _ _ ps bps hcol _ y hy
+  exact ⟨pa, pb, hpa, hpb, by rw [hca, hcb, hxy]⟩
+
+example : (runF [['1'], ['2']] (fun _ => false) {} ([ln ['j'] 9] ++ ln ['k'] 20 :: ln ['k'] 80 :: [ln ['j'] 81])).toOption.map
+    (fun r => r.2.map (·.colour)) = some [some ['1'], some ['2'], some ['2'], some ['1']] := by decide
+
+/-- With a palette of two or more pairwise distinct colours, a line attributed differently from its
+predecessor never has the predecessor's colour, and neither its metadata nor its number is blanked —
+whatever the line numbers. -/
+theorem neighbour_differs_any_line_numbers (pal : List Colour) (hd : pal.Nodup) (h2 : 2 ≤ pal.length)
+    (opq : Nat → Bool) (pre post : List LineIn) (a b : LineIn) (hk : a.key ≠ b.key)
+    (hplain : ∀ l ∈ pre ++ a :: b :: post, l.git = false) (s : FState) (ps : List FPaint)
+    (h : runF pal opq {} (pre ++ a :: b :: post) = .ok (s, ps)) :
+    ∃ pa pb, ps[pre.length]? = some pa ∧ ps[pre.length + 1]? = some pb ∧ pa.colour ≠ pb.colour ∧
+      pb.blank = false ∧ pb.number = false := by
+  obtain ⟨bps, hr, hcol, _⟩ := runF_ok_run repeat_flow_ok pal opq _ s ps h
+  rw [keysOf_plain _ hplain] at hr
+  simp only [List.map_append, List.map_cons] at hr
+  obtain ⟨x, y, hx, hy, hxy, _⟩ :=
+    neighbour_differs pal hd h2 (pre.map (·.key)) (post.map (·.key)) a.key b.key hk _ bps hr
+  simp only [List.length_map] at hx hy
+  obtain ⟨pa, hpa, hca⟩ := getElem?_of_map_eq _ _ ps bps hcol _ x hx
+  obtain ⟨pb, hpb, hcb⟩ := getElem?_of_map_eq _ _ ps bps hcol _ y hy
+  obtain ⟨pb', hpb', hdisp⟩ := runF_display_at repeat_flow_ok pal opq pre post a b s ps h
+  rw [hpb] at hpb'
+  injection hpb' with hpb'
+  subst hpb'
+  refine ⟨pa, pb, hpa, hpb, by rw [hca, hcb]; exact hxy, ?_, ?_⟩
+  · cases hb : pb.blank with
+    | false => rfl
+    | true => exact absurd (hdisp (Or.inl hb)) hk
+  · cases hb : pb.number with
+    | false => rfl
+    | true => exact absurd (hdisp (Or.inr hb)) hk
+
+example : (runF [['1'], ['2'], ['3']] (fun _ => false) {} ([] ++ ln ['a'] 5 :: ln ['b'] 6 :: [ln ['a'] 7])).toOption.map
+    (fun r => r.2.map (fun p => (p.colour, p.blank))) =
+    some [(some ['1'], false), (some ['2'], false), (some ['1'], false)] := by decide
+
+/-- An attribution keeps its colour when it reappears, unless that colour is the colour of the line above —
+whatever the line numbers of the stream (in particular when the attribution's own lines were not adjacent). -/
+theorem colour_stable_unless_collision_any_line_numbers (pal : List Colour) (hpal : pal ≠ [])
+    (opq : Nat → Bool) (pre mid post : List LineIn) (a p b : LineIn) (hab : a.key = b.key)
+    (hmid : ∀ l ∈ mid, l.key ≠ a.key) (hpk : p.key ≠ a.key)
+    (hplain : ∀ l ∈ pre ++ a :: (mid ++ p :: b :: post), l.git = false) (s : FState) (ps : List FPaint)
+    (h : runF pal opq {} (pre ++ a :: (mid ++ p :: b :: post)) = .ok (s, ps)) :
+    ∃ pa pp pb, ps[pre.length]? = some pa ∧ ps[pre.length + 1 + mid.length]? = some pp ∧
+      ps[pre.length + 1 + mid.length + 1]? = some pb ∧
+      (pa.colour ≠ pp.colour → pb.colour = pa.colour) := by
+  obtain ⟨bps, hr, hcol, _⟩ := runF_ok_run repeat_flow_ok pal opq _ s ps h
+  rw [keysOf_plain _ hplain] at hr
+  simp only [List.map_append, List.map_cons, ← hab] at hr
+  have hmid' : a.key ∉ mid.map (·.key) := by
+    intro hm
+    obtain ⟨l, hl, hle⟩ := List.mem_map.mp hm
+    exact hmid l hl hle
+  obtain ⟨x, y, z, hx, hy, hz, himp⟩ :=
+    colour_stable_unless_collision pal hpal (pre.map (·.key)) (mid.map (·.key)) (post.map (·.key))
+      p.key a.key hmid' hpk _ bps hr
+  simp only [List.length_map] at hx hy hz
+  obtain ⟨pa, hpa, hca⟩ := getElem?_of_map_eq _ _ ps bps hcol _ x hx
+  obtain ⟨pp, hpp, hcp⟩ := getElem?_of_map_eq _ _ ps bps hcol _ y hy
+  obtain ⟨pb, hpb, hcb⟩ := getElem?_of_map_eq _ _ ps bps hcol _ z hz
+  refine ⟨pa, pp, pb, hpa, hpp, hpb, ?_⟩
+  intro hne
+  rw [hca, hcb]
+  exact himp (by rw [← hca, ← hcp]; exact hne)
+
+example : (runF [['1'], ['2'], ['3']] (fun _ => false) {}
+      ([ln ['a'] 10] ++ ln ['a'] 40 :: ([ln ['b'] 41] ++ ln ['c'] 42 :: ln ['a'] 90 :: []))).toOption.map
+    (fun r => r.2.map (·.colour)) = some [some ['1'], some ['1'], some ['2'], some ['3'], some ['1']] := by decide
+
+/-- Metadata (and the line number) are blanked only on consecutive lines of the same attribution: if the row
+of `b` is displayed as a repeat, the line above it has `b`'s key — also for lines coloured by git and for every
+sequence of line numbers. (The converse is not demanded: showing the metadata again, e.g. after a gap, is
+allowed.) -/
+theorem blank_only_after_same_key (pal : List Colour) (opq : Nat → Bool) (pre post : List LineIn)
+    (a b : LineIn) (s : FState) (ps : List FPaint)
+    (h : runF pal opq {} (pre ++ a :: b :: post) = .ok (s, ps)) :
+    ∃ pb, ps[pre.length + 1]? = some pb ∧ ((pb.blank = true ∨ pb.number = true) → a.key = b.key) :=
+  runF_display_at repeat_flow_ok pal opq pre post a b s ps h
+
+/-- ... and never on the first line of a stream. -/
+theorem first_line_shows_metadata (pal : List Colour) (opq : Nat → Bool) (a : LineIn) (post : List LineIn)
+    (s : FState) (ps : List FPaint) (h : runF pal opq {} (a :: post) = .ok (s, ps)) :
+    ∃ pa, ps[0]? = some pa ∧ pa.blank = false ∧ pa.number = false :=
+  runF_display_first repeat_flow_ok pal opq a post s ps h
+
+example : (runF [['1'], ['2']] (fun _ => false) {} ([] ++ ln ['a'] 5 :: ln ['a'] 50 :: [])).toOption.map
+    (fun r => r.2.map (fun p => (p.blank, p.number))) = some [(false, false), (true, true)] := by decide
+
+/-- `code_and_number_intact` for the row `handle_blame_line` builds *with the generated flags*
+(`streamStepF`, executed by `drv_blame`): code, number and metadata of a line `fmtBlame r …` reach the row;
+the number is shown unless the separator format is per-block / every-N *and* the state holds the same key;
+the metadata is the key, or blanks of its width — blanks only if the state holds the same key; afterwards the
+state holds the key. For every line number and whatever the registers hold. -/
+theorem row_intact_any_line_numbers (cfg : StreamCfg) (opq : Nat → Bool) (s s' : FState) (git : Bool) (o : Out)
+    (r : BlameRec) (file : Option Blame.Str) (padA padB : Nat)
+    (hmode : cfg.mode = Generated.Blame.authorMode)
+    (hc : validCommit r.commit) (hf : ∀ f, file = some f → '(' ∉ f)
+    (ha : 1 ≤ r.author.length) (ha0 : r.author.head? ≠ some ' ') (ha1 : r.author.getLast? ≠ some ' ')
+    (hts : tsShape r.ts = true) (htv : tsValid r.ts = true) (htn : normTs r.ts = r.ts)
+    (hn : r.lineNumber < 2 ^ 64)
+    (hgreedy : Generated.Blame.authorMode = 0 → 2 ≤ r.author.length ∧ noTail r.code = true)
+    (hlazy : Generated.Blame.authorMode = 1 → noBlankDigit r.author = true)
+    (h : streamStepF cfg opq s (fmtBlame r file padA padB) git = .ok (s', o)) :
+    ∃ key colour blank row,
+      o = .row colour blank key row ∧
+      formatMeta cfg.arith cfg.cw cfg.items (cfg.tsOut r.ts) r.author r.commit = .ok key ∧
+      s'.c.prev = some key ∧
+      row.code = Text.expand cfg.tab r.code ∧ ('\t' ∉ r.code → row.code = r.code) ∧
+      (∀ w, cfg.sep.width = some w → (cfg.sep.kind = .on ∨ s.c.prev ≠ some key) →
+        row.num.filter (· != ' ') = Nat.toDigits 10 r.lineNumber) ∧
+      (s.c.prev ≠ some key → blank = false ∧ row.metaCol = key) ∧
+      (blank = true → row.metaCol = spaces (strWidth cfg.cw key)) ∧
+      (blank = false → row.metaCol = key) := by
+  have hp : parseBlame cfg.mode (fmtBlame r file padA padB) = some r := by
+    rw [hmode]
+    exact blame_round_trip r file padA padB hc hf ha ha0 ha1 hts htv htn hn hgreedy hlazy
+  obtain ⟨key, paint, pre, num, suf, hkey, hstep, hnum, ho⟩ := streamStepF_row cfg opq s s' _ git r o hp h
+  have hprev := stepF_prev repeat_flow_ok cfg.pal opq s s' _ paint hstep
+  have hdisp := stepF_display repeat_flow_ok cfg.pal opq s s' _ paint hstep
+  refine ⟨key, paint.colour, paint.blank, _, ho, hkey, hprev, rfl, fun ht => expand_no_tab _ _ ht, ?_, ?_, ?_, ?_⟩
+  · intro w hw hshow
+    have hshow' : cfg.sep.kind = .on ∨ paint.number = false := by
+      rcases hshow with h1 | h1
+      · exact Or.inl h1
+      · right
+        cases hb : paint.number with
+        | false => rfl
+        | true => exact absurd (hdisp (Or.inr hb)) h1
+    exact (fmtLineNumber_shows cfg.sep r.lineNumber _ pre num suf w hnum hw hshow').1
+  · intro hne
+    have hb : paint.blank = false := by
+      cases hb : paint.blank with
+      | false => rfl
+      | true => exact absurd (hdisp (Or.inl hb)) hne
+    exact ⟨hb, by simp [hb]⟩
+  · intro hb
+    simp [hb]
+  · intro hb
+    simp [hb]
+
+/-- One output row (or raw pass-through) per input line, in order (`streamF`). -/
+theorem stream_flow_one_row_per_line (cfg : StreamCfg) (opq : Nat → Bool) (lines : List (Blame.Str × Bool))
+    (outs : List Out) (h : streamF cfg opq {} lines = .ok outs) : outs.length = lines.length :=
+  streamF_length cfg opq {} lines outs h
+
+end Flow
 
 end C17
